@@ -152,7 +152,7 @@ type ReverseInnerSearcher struct {
 	fullDFA         *lazy.DFA // Forward DFA of the FULL pattern: finds match end once match start is known
 	fullCachePool   sync.Pool // Caches for fullDFA
 	prefilter       prefilter.Prefilter
-	pikevm          *nfa.PikeVM
+	pikevm          *pikevmPool
 	innerLen        int  // Length of the inner literal for calculating positions
 	universalPrefix bool // True if prefix is .* (matches everything from start)
 	universalSuffix bool // True if suffix ends with .* (matches everything to end)
@@ -273,7 +273,7 @@ func NewReverseInnerSearcher(
 	}
 
 	// Create PikeVM for fallback (uses full pattern)
-	pikevm := nfa.NewPikeVM(fullNFA)
+	pikevm := newPikeVMPool(fullNFA)
 
 	// Detect universal prefix/suffix for Find optimization
 	// For patterns like `.*connection.*`:
